@@ -1,4 +1,7 @@
-# Per-property configuration of bin/check.
+# Per-property configuration of bin/check: one file per property under bin/props.d/Cxx.py
+# defining PROP (check configuration) and TEXT (manifest wording).
+import glob, os, runpy
+
 TB_COMMON = [
     "Coq 8.16.1 kernel (coqc, full .vo build; vm_compute used, native_compute not used)",
     "Print Assumptions under every property theorem must report 'Closed under the global context' (no axioms)",
@@ -10,14 +13,10 @@ ASSUME_COMMON = [
     "theorems are about the hand-written Gallina model in /verif/coq/Model; the tie to /repo is the generated tables plus the sampled correspondence legs of this run",
 ]
 
-PROPS = {
-    "C19": {
-        "level": "proof",
-        "legs": ["c19-escape", "c19-literal"],
-        "trusted_base": TB_COMMON + ["oracles unicode.IsPrint and syntax.IsWordChar: universally quantified in the theorem; the single hypothesis (metacharacters are not word characters) is checked against the running Go toolchain by leg c19-escape"],
-        "assumptions": ASSUME_COMMON + [
-            "modelled: syntax/escape.go Escape/escape/Unescape and parser.go scanCharEscape/scanHex/scanHexUntilBrace/scanOctal/scanControl under the zero-option parser Unescape uses",
-            "not modelled: the literal-run scanner of the full pattern parser; the 'Escape(s) compiles to a literal' half is exercised by leg c19-literal (sampled), not proved",
-        ],
-    },
-}
+PROPS, TEXT = {}, {}
+_here = os.path.dirname(os.path.abspath(__file__))
+for _f in sorted(glob.glob(os.path.join(_here, "props.d", "C*.py"))):
+    _ns = runpy.run_path(_f, {"TB_COMMON": TB_COMMON, "ASSUME_COMMON": ASSUME_COMMON})
+    _id = os.path.basename(_f)[:-3]
+    PROPS[_id] = _ns["PROP"]
+    TEXT[_id] = _ns["TEXT"]
